@@ -31,6 +31,7 @@ func Opt() []*e1.Program {
 		p.Style = render.Dot
 		return p
 	}
+	withImports := func(p *e1.Program, imps ...string) *e1.Program { p.Imports = append(p.Imports, imps...); return p }
 	return []*e1.Program{
 		withSeq(by("by-user-seq-code-delay-with-effectful-arguments", `
 func §mk(tag int) seq.Seq[int] {
@@ -69,6 +70,47 @@ func §E() {
 		tr.V(5, kt.Current())
 	}
 }`, "user-seq-code")),
+		withSeq(by("by-user-wrappers-of-generic-seq-functions-with-inferred-type-arguments", `
+func §E() {
+	loop := func(body seq.Seq[int]) seq.Seq[int] { return seq.Loop(body) }
+	start := func(s seq.Seq[int]) seq.Iterator[int] { return seq.Start(s) }
+	delay := func(f func() seq.Seq[int]) seq.Seq[int] { return seq.Delay(f) }
+	bind := func(v int, f func() seq.Seq[int]) seq.Seq[int] { return seq.Bind(v, f) }
+	both := func(a, b seq.Seq[int]) seq.Seq[int] { return seq.Combine(a, b) }
+	explicit := func(s seq.Seq[int]) seq.Iterator[int] { return seq.Start[int](s) }
+	n := 0
+	it := start(loop(delay(func() seq.Seq[int] {
+		n++
+		if n > 3 {
+			return seq.Break[int]()
+		}
+		return both(bind(n, seq.Normal[int]), bind(-n, seq.Normal[int]))
+	})))
+	for it.MoveNext() {
+		tr.V(1, it.Current())
+	}
+	jt := explicit(bind(7, seq.Normal[int]))
+	tr.V(2, jt.MoveNext())
+	tr.V(3, jt.Current())
+}`, "user-seq-code", "eta:generic-inferred")),
+		withImports(by("by-wrappers-of-call-depth-sensitive-standard-functions", `
+func §E() {
+	caller := func(skip int) (uintptr, string, int, bool) { return runtime.Caller(skip) }
+	callers := func(skip int, pcs []uintptr) int { return runtime.Callers(skip, pcs) }
+	upper := func(s string) string { return strings.ToUpper(s) }
+	pc, _, _, ok := caller(0)
+	name := runtime.FuncForPC(pc).Name()
+	// frame 0 of runtime.Caller called through the wrapper is the wrapper literal itself
+	tr.V(1, ok && strings.Contains(name[strings.LastIndex(name, "/")+1:], "func"))
+	pcs := make([]uintptr, 8)
+	n := callers(0, pcs)
+	frames := runtime.CallersFrames(pcs[:n])
+	f0, _ := frames.Next()
+	f1, _ := frames.Next()
+	tr.V(2, strings.HasSuffix(f0.Function, "runtime.Callers"))
+	tr.V(3, strings.Contains(f1.Function[strings.LastIndex(f1.Function, "/")+1:], "func"))
+	tr.V(4, upper("abc"))
+}`, "eta:stdlib"), "runtime", "strings"),
 		by("by-eta-funcvar-reassigned", `
 func §E() {
 	f := func(x int) int { tr.E(1); return x + 1 }
